@@ -4,6 +4,7 @@ package main
 // clause it decides; the text added to the property's explanation says what is decided.
 
 import (
+	"go/ast"
 	"go/token"
 	"sort"
 	"go/types"
@@ -2553,5 +2554,1162 @@ func ruleR01_12(p *Program, r *Report) {
 	}
 	if n == 0 {
 		r.Undecided(id, "encoders", "-", "a Go encoder accumulates litCode results between drains", "none found")
+	}
+}
+
+// ---------------------------------------------------------------- round 7
+
+func init() {
+	extend("C04", Rule{ID: "R04.11", Configs: "all", Run: ruleR04_11},
+		"(R04.11) what the header parser builds does not depend on how much input is visible: no argument of a table builder (genForLitLen, genForDists, GenerateForHeader and their callees' parameters) and no branch that selects between them is computed from len(state.input) - the amount of input at hand is a property of the delivery schedule, and the table flavour decides how many symbols are rolled back together when the input ends.")
+}
+
+func ruleR04_11(p *Program, r *Report) {
+	r.Expect("R04.11", 2)
+	sp := p.Pkg(flateRel)
+	// values that depend on len(<...>.input): data flow and, for phis, the conditions that select their edges
+	dependsOnInputLen := func(fn *ssa.Function, v ssa.Value) (bool, string) {
+		seen := map[ssa.Value]bool{}
+		hit := ""
+		var walk func(v ssa.Value, d int)
+		walk = func(v ssa.Value, d int) {
+			if v == nil || seen[v] || d > 12 || hit != "" {
+				return
+			}
+			seen[v] = true
+			if c, ok := v.(*ssa.Call); ok {
+				if bi, ok := c.Common().Value.(*ssa.Builtin); ok && bi.Name() == "len" {
+					if _, sel := accessPath(c.Common().Args[0]); strings.HasSuffix(sel, ".input") {
+						hit = "len(" + sel + ")"
+						return
+					}
+					if _, sel, isL := fieldLoad(c.Common().Args[0]); isL && strings.HasSuffix(sel, ".input") {
+						hit = "len(" + sel + ")"
+						return
+					}
+				}
+				return
+			}
+			switch x := v.(type) {
+			case *ssa.Phi:
+				for _, e := range x.Edges {
+					walk(e, d+1)
+				}
+				// the conditions that decide which edge is taken
+				for _, br := range controlDeps(fn, x.Block()) {
+					walk(br.Cond, d+1)
+				}
+				for _, pr := range x.Block().Preds {
+					for _, br := range controlDeps(fn, pr) {
+						walk(br.Cond, d+1)
+					}
+				}
+			case *ssa.BinOp:
+				walk(x.X, d+1)
+				walk(x.Y, d+1)
+			case *ssa.UnOp:
+				if x.Op != token.MUL {
+					walk(x.X, d+1)
+				}
+			case *ssa.Convert:
+				walk(x.X, d+1)
+			}
+		}
+		walk(v, 0)
+		return hit != "", hit
+	}
+	builders := map[string]bool{"genForLitLen": true, "genForDists": true, "GenerateForHeader": true}
+	for _, fn := range p.Funcs() {
+		if fn.Pkg != sp {
+			continue
+		}
+		lab := newLabeler()
+		for _, c := range allCalls(fn) {
+			g := c.Common().StaticCallee()
+			if g == nil || !p.InRepo(g) {
+				continue
+			}
+			isB := builders[g.Name()]
+			if !isB {
+				for name := range builders {
+					if f := p.anyMethodNamed(flateRel, name); f == g {
+						isB = true
+					}
+				}
+			}
+			if !isB {
+				continue
+			}
+			key := shortFn(fn) + "|" + lab.get(g.Name())
+			why := ""
+			for i, a := range c.Common().Args {
+				if i == 0 && g.Signature.Recv() != nil {
+					continue
+				}
+				if intSize(a.Type()) == 0 && !isBoolType(a.Type()) {
+					continue
+				}
+				if dep, what := dependsOnInputLen(fn, a); dep {
+					why = "argument " + itoa(i) + " of " + g.Name() + " is computed from " + what + ": the lookup table's shape - and with it the number of symbols rolled back when the input ends inside an entry - depends on how the source delivered the data"
+				}
+			}
+			// the call itself selected by the amount of input
+			for _, br := range controlDeps(fn, c.Block()) {
+				if dep, what := dependsOnInputLen(fn, br.Cond); dep && why == "" {
+					// an end-of-input test on the bit count is not a len(input) test; only len() of the input slice counts
+					why = "the call is selected by a condition on " + what
+				}
+			}
+			r.Check(why == "", "R04.11", key, p.InstrPos(c), "the table built for a block is a function of the block header alone", why)
+		}
+	}
+}
+
+// anyMethodNamed: a method called `name` on any type of the package (rename fallback does not apply).
+func (p *Program) anyMethodNamed(rel, name string) *ssa.Function {
+	for _, fn := range p.Funcs() {
+		if fn.Pkg == p.Pkg(rel) && fn.Name() == name && fn.Signature.Recv() != nil {
+			return fn
+		}
+	}
+	return nil
+}
+
+func init() {
+	extend("C10", Rule{ID: "R10.11", Configs: "all", Run: ruleR10_11},
+		"(R10.11) the final-block flag handed to a block encoder by the block compressor is tied to 'all pending input has been encoded': the value passed as the final flag depends on the comparison input cursor == end of input (idx == end), so that of several blocks emitted by one Close only the last is marked final.")
+	extend("C01", Rule{ID: "R01.13", Configs: "all", Run: ruleR10_11}, "(R01.13) = R10.11.")
+	extend("C03", Rule{ID: "R03.11", Configs: "all", Run: ruleR03_11},
+		"(R03.11) the code-space tests of the block header agree with one another: every Kraft sum goes through the same acceptance predicate (the same helper, or the same set of comparisons), so the literal/length code, the distance code and the code-length code all admit exactly compress/flate's exceptions (no code at all; the single 1-bit code).")
+	extend("C02", Rule{ID: "R02.13", Configs: "all", Run: ruleR02_13},
+		"(R02.13) in the code-length parser the 'previous slot' cursor follows the write cursor: on every way back to the loop head on which the write cursor has advanced, the previous-slot cursor has been reassigned too - a repeat (symbol 16) after a zero run (17/18) must repeat the zero, not an older length.")
+	extend("C05", Rule{ID: "R05.7", Configs: "all", Run: ruleR05_7},
+		"(R05.7) decoded bytes leave the flate Reader through Read alone: the hand-out cursor readPos is stored only in Read, step and Reset - another consumer (an io.WriterTo, say) would have to repeat the give-back of unread input that the final step performs.")
+}
+
+func ruleR10_11(p *Program, r *Report) {
+	id := "R10.11"
+	if r.Prop == "C01" {
+		id = "R01.13"
+	}
+	r.Expect(id, 1)
+	fn := p.Method(deflRel, "dynCompressor", "compressBlock")
+	eb := p.Method(deflRel, "dynCompressor", "encodeBlock")
+	if fn == nil || eb == nil {
+		r.Undecided(id, "anchors", "-", "dynCompressor.compressBlock and encodeBlock exist", "not found")
+		return
+	}
+	lab := newLabeler()
+	n := 0
+	for _, c := range allCalls(fn) {
+		if c.Common().StaticCallee() != eb || len(c.Common().Args) < 2 {
+			continue
+		}
+		n++
+		key := shortFn(fn) + "|" + lab.get("final flag of encodeBlock")
+		arg := c.Common().Args[1]
+		// the flag must depend on idx == end: either in its data/control slice, or as a dominating fact of the call
+		dep := false
+		seen := map[ssa.Value]bool{}
+		var walk func(v ssa.Value, d int)
+		isDrained := func(v ssa.Value) bool {
+			bo, ok := v.(*ssa.BinOp)
+			if !ok || (bo.Op != token.EQL && bo.Op != token.GEQ && bo.Op != token.LEQ) {
+				return false
+			}
+			_, s1, ok1 := fieldLoad(bo.X)
+			_, s2, ok2 := fieldLoad(bo.Y)
+			return ok1 && ok2 && ((s1 == ".idx" && s2 == ".end") || (s1 == ".end" && s2 == ".idx"))
+		}
+		walk = func(v ssa.Value, d int) {
+			if v == nil || seen[v] || d > 8 || dep {
+				return
+			}
+			seen[v] = true
+			if isDrained(v) {
+				dep = true
+				return
+			}
+			switch x := v.(type) {
+			case *ssa.Phi:
+				for _, e := range x.Edges {
+					walk(e, d+1)
+				}
+				for _, br := range controlDeps(fn, x.Block()) {
+					walk(br.Cond, d+1)
+				}
+				for _, pr := range x.Block().Preds {
+					for _, br := range controlDeps(fn, pr) {
+						walk(br.Cond, d+1)
+					}
+				}
+			case *ssa.BinOp:
+				walk(x.X, d+1)
+				walk(x.Y, d+1)
+			case *ssa.UnOp:
+				if x.Op == token.NOT {
+					walk(x.X, d+1)
+				}
+			}
+		}
+		walk(arg, 0)
+		if !dep {
+			for _, f := range dominatingFacts(c) {
+				if f.Y != nil && f.Op == token.EQL {
+					_, s1, ok1 := fieldLoad(f.X)
+					_, s2, ok2 := fieldLoad(f.Y)
+					if ok1 && ok2 && ((s1 == ".idx" && s2 == ".end") || (s1 == ".end" && s2 == ".idx")) {
+						dep = true
+					}
+				}
+			}
+		}
+		if k, isK := constBool(arg); isK && !k {
+			dep = true // a constant false never marks a block final
+		}
+		r.Check(dep, id, key, p.InstrPos(c), "a block is marked final only when it is the last one of the stream", "the final flag passed to the block encoder does not depend on 'idx == end': when Close needs several blocks (token limit reached) each of them is marked final and inflaters stop after the first")
+	}
+	if n == 0 {
+		r.Undecided(id, shortFn(fn)+"|encodeBlock", p.Pos(fn.Pos()), "compressBlock calls encodeBlock", "no call")
+	}
+}
+
+func ruleR03_11(p *Program, r *Report) {
+	r.Expect("R03.11", 2)
+	sites := kraftSites(p)
+	sig := func(ks kraftSite) string {
+		var parts []string
+		for _, bo := range ks.cmps {
+			k, isK := constInt(bo.Y)
+			if !isK {
+				k, _ = constInt(bo.X)
+			}
+			parts = append(parts, bo.Op.String()+itoa(int(k)))
+		}
+		// a helper's further comparisons on the same parameter (== 0, == 1<<14 ...) belong to the predicate
+		if len(ks.cmps) > 0 {
+			h := ks.cmps[0].Parent()
+			if prm, ok := stripConv(ks.cmps[0].X).(*ssa.Parameter); ok {
+				for _, b := range h.Blocks {
+					for _, in := range b.Instrs {
+						if bo, ok := in.(*ssa.BinOp); ok && stripConv(bo.X) == ssa.Value(prm) {
+							if k, isK := constInt(bo.Y); isK && k != 1<<15 {
+								parts = append(parts, bo.Op.String()+itoa(int(k)))
+							}
+						}
+					}
+				}
+				parts = append(parts, "via "+h.Name())
+			}
+		}
+		sort.Strings(parts)
+		return strings.Join(parts, ",")
+	}
+	if len(sites) < 2 {
+		r.Undecided("R03.11", "sites", "-", "at least two code-space tests exist", "found "+itoa(len(sites)))
+		return
+	}
+	ref := sig(sites[0])
+	labs := map[*ssa.Function]*labeler{}
+	for _, ks := range sites {
+		if labs[ks.fn] == nil {
+			labs[ks.fn] = newLabeler()
+		}
+		key := shortFn(ks.fn) + "|" + labs[ks.fn].get("acceptance predicate")
+		s := sig(ks)
+		r.Check(s == ref, "R03.11", key, p.InstrPos(ks.at), "all code-space tests of the header use one acceptance predicate", "this site decides with {"+s+"}, the first site with {"+ref+"}: a code that compress/flate accepts for one alphabet (the single 1-bit code, no code at all) is treated differently here")
+	}
+}
+
+func ruleR02_13(p *Program, r *Report) {
+	r.Expect("R02.13", 3)
+	fn := p.Method(flateRel, "inflate", "readLitDistLens")
+	if fn == nil {
+		r.Undecided("R02.13", "anchors", "-", "inflate.readLitDistLens exists", "not found")
+		return
+	}
+	// the loop head: the block with the phi compared against len(huffs); write cursor = that phi;
+	// previous-slot cursor = the phi used as index of a huffs[...] load feeding the repeat
+	var head *ssa.BasicBlock
+	var curr, prev *ssa.Phi
+	for _, b := range fn.Blocks {
+		for _, in := range b.Instrs {
+			phi, ok := in.(*ssa.Phi)
+			if !ok {
+				continue
+			}
+			switch phi.Comment {
+			case "curr":
+				if head == nil || b == head {
+					head, curr = b, phi
+				}
+			case "prev":
+				if head == nil || b == head {
+					head, prev = b, phi
+				}
+			}
+		}
+		if curr != nil && prev != nil {
+			break
+		}
+		head, curr, prev = nil, nil, nil
+	}
+	if curr == nil || prev == nil {
+		// fall back on roles: curr is compared with a len(); prev indexes the slice
+		for _, b := range fn.Blocks {
+			var phis []*ssa.Phi
+			for _, in := range b.Instrs {
+				if phi, ok := in.(*ssa.Phi); ok && intSize(phi.Type()) > 0 {
+					phis = append(phis, phi)
+				}
+			}
+			if len(phis) < 2 {
+				continue
+			}
+			for _, ph := range phis {
+				if refs := ph.Referrers(); refs != nil {
+					for _, u := range *refs {
+						if bo, ok := u.(*ssa.BinOp); ok && bo.Op == token.LSS {
+							if c, ok := bo.Y.(*ssa.Call); ok {
+								if bi, ok := c.Common().Value.(*ssa.Builtin); ok && bi.Name() == "len" {
+									curr, head = ph, b
+								}
+							}
+						}
+					}
+				}
+			}
+			if curr != nil {
+				for _, ph := range phis {
+					if ph == curr {
+						continue
+					}
+					if refs := ph.Referrers(); refs != nil {
+						for _, u := range *refs {
+							if ia, ok := u.(*ssa.IndexAddr); ok && ia.Index == ssa.Value(ph) {
+								prev = ph
+							}
+						}
+					}
+				}
+			}
+			if curr != nil && prev != nil {
+				break
+			}
+			curr, prev, head = nil, nil, nil
+		}
+	}
+	if curr == nil || prev == nil || head == nil {
+		r.Undecided("R02.13", shortFn(fn)+"|cursors", p.Pos(fn.Pos()), "the parser's loop has a write cursor and a previous-slot cursor", "not identified")
+		return
+	}
+	lab := newLabeler()
+	for i, pr := range head.Preds {
+		if !head.Dominates(pr) {
+			continue // loop entry
+		}
+		ce, pe := curr.Edges[i], prev.Edges[i]
+		if ce == ssa.Value(curr) {
+			continue // the write cursor did not move on this way back
+		}
+		key := shortFn(fn) + "|" + lab.get("back edge")
+		pos := "-"
+		if len(pr.Instrs) > 0 {
+			pos = p.InstrPos(pr.Instrs[len(pr.Instrs)-1])
+		}
+		// the previous-slot cursor must not simply carry its old value: through phis, it must be reassigned on every
+		// path of this way back
+		// pairwise through phis of the same block: an incoming edge on which the write cursor is unchanged (a loop
+		// that may run zero times) carries no obligation; one on which it advanced must not carry the old prev
+		stale := false
+		type pair struct{ c, p ssa.Value }
+		seenP := map[pair]bool{}
+		var walk func(c, q ssa.Value, d int)
+		walk = func(c, q ssa.Value, d int) {
+			if seenP[pair{c, q}] || d > 6 || stale {
+				return
+			}
+			seenP[pair{c, q}] = true
+			if c == ssa.Value(curr) {
+				return // the write cursor did not move along this edge
+			}
+			cp, okc := c.(*ssa.Phi)
+			qp, okq := q.(*ssa.Phi)
+			if okc && okq && cp.Block() == qp.Block() && cp.Block() != head {
+				for k := range cp.Edges {
+					walk(cp.Edges[k], qp.Edges[k], d+1)
+				}
+				return
+			}
+			if okq && qp.Block() != head {
+				for k := range qp.Edges {
+					walk(c, qp.Edges[k], d+1)
+				}
+				return
+			}
+			if q == ssa.Value(prev) {
+				stale = true
+			}
+		}
+		walk(ce, pe, 0)
+		r.Check(!stale, "R02.13", key, pos, "when the write cursor advances the previous-slot cursor is reassigned", "on this way back to the loop head the write cursor advances while the previous-slot cursor can keep its old value: a following repeat code copies a length from before the run")
+	}
+}
+
+func ruleR05_7(p *Program, r *Report) {
+	r.Expect("R05.7", 2)
+	dn := p.Named(flateRel, "decompressor")
+	if dn == nil {
+		r.Undecided("R05.7", "anchors", "-", "type decompressor exists", "not found")
+		return
+	}
+	allowed := map[*ssa.Function]bool{}
+	for _, name := range []string{"Read", "step", "Reset"} {
+		if f := p.Method(flateRel, "decompressor", name); f != nil {
+			allowed[f] = true
+		}
+	}
+	for _, fn := range p.Funcs() {
+		lab := newLabeler()
+		for _, b := range fn.Blocks {
+			for _, in := range b.Instrs {
+				st, ok := in.(*ssa.Store)
+				if !ok {
+					continue
+				}
+				root, sel := accessPath(st.Addr)
+				if root == nil || sel != ".readPos" || derefNamed(root.Type()) != dn {
+					continue
+				}
+				key := shortFn(fn) + "|" + lab.get("store .readPos")
+				r.Check(allowed[fn], "R05.7", key, p.InstrPos(st), "only Read, step and Reset move the hand-out cursor", "decoded bytes are handed out (readPos advanced) outside Read: the consumer bypasses the final step that gives unread input back to the source")
+			}
+		}
+	}
+}
+
+func init() {
+	extend("C10", Rule{ID: "R10.12", Configs: "all", Run: ruleR10_12},
+		"(R10.12) run-length accounting of the block-header encoder: in every arm of zeroRepeat/numRepeat that takes a constant K off the remaining run, the symbols appended in that arm are appended unconditionally and describe exactly K code lengths (a literal length = 1, code 16 + extra e = 3+e, code 17 + e = 3+e, code 18 + e = 11+e); otherwise the header carries fewer lengths than HLIT/HDIST announce.")
+	extend("C01", Rule{ID: "R01.14", Configs: "all", Run: ruleR10_12}, "(R01.14) = R10.12.")
+}
+
+func ruleR10_12(p *Program, r *Report) {
+	id := "R10.12"
+	if r.Prop == "C01" {
+		id = "R01.14"
+	}
+	r.Expect(id, 2)
+	c16, _ := constOf(p, deflRel, "numRepeat3_6")
+	c17, _ := constOf(p, deflRel, "zeroRepeat3_10")
+	c18, _ := constOf(p, deflRel, "zeroRepeat11_138")
+	n := 0
+	for _, name := range []string{"numRepeat", "zeroRepeat"} {
+		fn := p.Method(deflRel, "dynamicHeader", name)
+		if fn == nil {
+			continue
+		}
+		// appended elements of an append call, in order
+		elems := func(c ssa.CallInstruction) []ssa.Value {
+			args := c.Common().Args
+			if len(args) < 2 {
+				return nil
+			}
+			sl, ok := args[1].(*ssa.Slice)
+			if !ok {
+				return nil
+			}
+			al, ok := sl.X.(*ssa.Alloc)
+			if !ok || al.Referrers() == nil {
+				return nil
+			}
+			m := map[int64]ssa.Value{}
+			for _, u := range *al.Referrers() {
+				if ia, ok := u.(*ssa.IndexAddr); ok {
+					idx, _ := constInt(ia.Index)
+					if ia.Referrers() != nil {
+						for _, u2 := range *ia.Referrers() {
+							if st, ok := u2.(*ssa.Store); ok {
+								m[idx] = st.Val
+							}
+						}
+					}
+				}
+			}
+			var out []ssa.Value
+			for i := int64(0); i < int64(len(m)); i++ {
+				out = append(out, m[i])
+			}
+			return out
+		}
+		var appends []ssa.CallInstruction
+		for _, c := range allCalls(fn) {
+			if bi, ok := c.Common().Value.(*ssa.Builtin); ok && bi.Name() == "append" {
+				appends = append(appends, c)
+			}
+		}
+		// loop head: the block of the phi for the remaining run
+		lab := newLabeler()
+		for _, b := range fn.Blocks {
+			for _, in := range b.Instrs {
+				bo, ok := in.(*ssa.BinOp)
+				if !ok || bo.Op != token.SUB {
+					continue
+				}
+				k, isK := constInt(bo.Y)
+				ph, isPhi := bo.X.(*ssa.Phi)
+				if !isK || !isPhi || k <= 0 || intSize(bo.Type()) < 4 {
+					continue
+				}
+				// is this the remaining-run update (flows back into the phi)?
+				back := false
+				for _, e := range ph.Edges {
+					if e == ssa.Value(bo) {
+						back = true
+					}
+				}
+				if !back {
+					continue
+				}
+				n++
+				key := shortFn(fn) + "|" + lab.get("arm taking "+itoa(int(k)))
+				total := int64(0)
+				why := ""
+				for _, a := range appends {
+					// appends of this arm: the decrement is reachable from them without passing the loop head
+					reach, _, _ := PathQuery{Start: a, Target: func(x ssa.Instruction) bool { return x == ssa.Instruction(bo) }, Barrier: func(x ssa.Instruction) bool { return x.Block() == ph.Block() && x == x.Block().Instrs[0] }}.Find(fn)
+					if !reach {
+						continue
+					}
+					if !dominatesInstr(a, bo) {
+						why = "the append at " + p.InstrPos(a) + " is conditional within the arm while the arm always takes " + itoa(int(k)) + " off the run"
+						break
+					}
+					es := elems(a)
+					for i := 0; i < len(es); i++ {
+						code, isC := constInt(es[i])
+						switch {
+						case isC && (code == c16 || code == c17 || code == c18) && i+1 < len(es):
+							e, isE := constInt(es[i+1])
+							if !isE {
+								why = "extra bits of a repeat code are not constant in a constant-step arm"
+							}
+							base := int64(3)
+							if code == c18 {
+								base = 11
+							}
+							total += base + e
+							i++
+						default:
+							total++ // a literal code length
+						}
+					}
+				}
+				if why == "" && total != k {
+					why = "the symbols appended in this arm describe " + itoa(int(total)) + " code lengths but the arm takes " + itoa(int(k)) + " off the run"
+				}
+				r.Check(why == "", id, key, p.InstrPos(bo), "a constant-step arm of the header run-length encoder emits exactly the lengths it accounts for", why)
+			}
+		}
+	}
+	if n == 0 {
+		r.Undecided(id, "arms", "-", "zeroRepeat/numRepeat have constant-step arms", "none found")
+	}
+}
+
+// registration of asm_budget.go's rule (kept here: init order follows file names)
+func init() {
+	extend("C18", Rule{ID: "R18.15", Configs: "asm", Run: ruleR18_15},
+		"(R18.15) bit budget of the assembly decode loop: with the guaranteed number of valid bits set to 57 by every refill idiom and reduced at every consumption by the RFC maximum of what the count can be (lit/len entry 20, distance entry 15, constant itself), no consumption in decodeHuffmanAsmArchV3 can take more bits than are valid, on any path through the loop.")
+	extend("C02", Rule{ID: "R02.14", Configs: "asm", Run: ruleR18_15}, "(R02.14) = R18.15.")
+}
+
+
+func init() {
+	extend("C03", Rule{ID: "R03.12", Configs: "all", Run: ruleR03_12},
+		"(R03.12) stored-block header: wherever the inflater takes the length of a stored block from the stream (a store to litBlockLength of a value narrower than the field, read from the bit buffer), the store is dominated by the equality of that length with the complement of a second value from the stream (LEN == ^NLEN) on every path - no length, zero included, is accepted unchecked.")
+}
+
+func ruleR03_12(p *Program, r *Report) {
+	r.Expect("R03.12", 1)
+	n := 0
+	sp := p.Pkg(flateRel)
+	hasCompl := func(v ssa.Value) bool {
+		found := false
+		var walk func(v ssa.Value, d int)
+		walk = func(v ssa.Value, d int) {
+			if d > 6 || found {
+				return
+			}
+			switch x := v.(type) {
+			case *ssa.UnOp:
+				if x.Op == token.XOR {
+					found = true
+					return
+				}
+				walk(x.X, d+1)
+			case *ssa.BinOp:
+				if x.Op == token.XOR || x.Op == token.AND_NOT {
+					found = true
+					return
+				}
+				walk(x.X, d+1)
+				walk(x.Y, d+1)
+			case *ssa.Convert:
+				walk(x.X, d+1)
+			case *ssa.ChangeType:
+				walk(x.X, d+1)
+			}
+		}
+		walk(v, 0)
+		return found
+	}
+	for _, fn := range p.Funcs() {
+		if fn.Pkg != sp {
+			continue
+		}
+		for _, b := range fn.Blocks {
+			for _, in := range b.Instrs {
+				st, ok := in.(*ssa.Store)
+				if !ok {
+					continue
+				}
+				_, sel := accessPath(st.Addr)
+				if sel != ".litBlockLength" {
+					continue
+				}
+				cv, isConv := st.Val.(*ssa.Convert)
+				if !isConv || intSize(cv.X.Type()) >= intSize(cv.Type()) {
+					continue // bookkeeping of the remaining length (constants, differences of the field itself)
+				}
+				L := cv.X
+				n++
+				okFact := false
+				for _, f := range dominatingFacts(st) {
+					if f.Y == nil || f.Op != token.EQL {
+						continue
+					}
+					isL := func(v ssa.Value) bool { return v == L || stripConv(v) == stripConv(L) }
+					switch {
+					case isL(f.X) && hasCompl(f.Y), isL(f.Y) && hasCompl(f.X):
+						okFact = true
+					}
+					// L ^ N == 0xffff, L + N == 0xffff
+					for _, side := range [][2]ssa.Value{{f.X, f.Y}, {f.Y, f.X}} {
+						if bo, isB := stripConv(side[0]).(*ssa.BinOp); isB && (bo.Op == token.XOR || bo.Op == token.ADD) && (isL(bo.X) || isL(bo.Y)) {
+							if k, isK := constInt(side[1]); isK && k == 0xffff {
+								okFact = true
+							}
+						}
+					}
+				}
+				why := ""
+				if !okFact {
+					why = "the length read from the stream reaches litBlockLength on a path where it was not compared with the complement of NLEN (for example a length of zero accepted without the check)"
+				}
+				r.Check(okFact, "R03.12", shortFn(fn)+"|stored length checked against its complement", p.InstrPos(st), "LEN == ^NLEN holds on every path to the store of the stored-block length", why)
+			}
+		}
+	}
+	if n == 0 {
+		r.Undecided("R03.12", "stored-block length", "-", "the inflater stores a stream-supplied length into litBlockLength", "no such store found")
+	}
+}
+
+func init() {
+	extend("C16", Rule{ID: "R16.6", Configs: "all", Run: ruleR16_6},
+		"(R16.6) gzip.Writer.Flush after Close: compress/gzip's Flush returns nil once the writer is closed ('if z.closed { return nil }', gzip.go); the fork's Flush has a test of its closed flag whose closed edge returns nil and whose open edge dominates every call on the compressor or the destination - otherwise Flush after Close reports the compressor's 'closed writer' error and makes it sticky.")
+}
+
+func ruleR16_6(p *Program, r *Report) {
+	r.Expect("R16.6", 1)
+	n := 0
+	for _, tr := range p.WriterTypes() {
+		if tr.Rel != gzipRel {
+			continue
+		}
+		fn := tr.Ops["Flush"]
+		recv := fn.Params[0]
+		n++
+		key := shortFn(fn) + "|nil after Close"
+		var calls []ssa.CallInstruction
+		seenCall := map[ssa.CallInstruction]bool{}
+		for _, rc := range p.regionCalls(fn) {
+			if ok, _ := p.isDstCall(rc.call); !ok {
+				continue
+			}
+			c := rc.call
+			if rc.via != nil {
+				c = rc.via // a helper of the same package: its call site in Flush is what has to be guarded
+			}
+			if !seenCall[c] {
+				seenCall[c] = true
+				calls = append(calls, c)
+			}
+		}
+		if len(calls) == 0 {
+			r.Undecided("R16.6", key, p.Pos(fn.Pos()), "Flush reaches the compressor", "no compressor or destination call found in Flush")
+			continue
+		}
+		why := "no test of the closed flag in Flush"
+		for _, ct := range p.findClosedTests(fn, recv) {
+			if ct.markerG != nil {
+				continue
+			}
+			why = ""
+			for _, c := range calls {
+				if !(len(ct.openSucc.Preds) == 1 && ct.openSucc.Dominates(c.Block())) {
+					why = "call " + calleeLabel(c) + " at " + p.InstrPos(c) + " is not dominated by the not-closed edge of the ." + ct.field + " test: Flush after Close reaches the compressor, which answers 'closed writer'"
+				}
+			}
+			retNil := false
+			for _, in := range ct.closedSucc.Instrs {
+				if ret, ok := in.(*ssa.Return); ok {
+					if e := returnErr(ret); e != nil && isNil(e) {
+						retNil = true
+					}
+				}
+			}
+			if why == "" && !retNil {
+				why = "the closed edge of the ." + ct.field + " test does not return nil"
+			}
+			if why == "" {
+				break
+			}
+		}
+		r.Check(why == "", "R16.6", key, p.Pos(fn.Pos()), "Flush returns nil on a closed writer before any of its "+itoa(len(calls))+" compressor/destination calls", why)
+	}
+	if n == 0 {
+		r.Undecided("R16.6", "gzip writer", "-", "the gzip package has a Writer with Write/Flush/Close/Reset", "not found")
+	}
+}
+
+// ---------- R12.5 / R13.5: no by-value state of the previous stream is carried across Reset ----------
+
+// carriedException lists by-value fields that Reset may legitimately copy from the old receiver although they are
+// neither reusable resources nor constructor-only configuration. One line of reason each (confirmed by reading).
+var carriedException = map[string]string{
+	"zlib.reader.dictInflater": "records which kind of inflater the carried decompressor is (compress/flate's or the repository's); it is carried together with that decompressor and only decides whether it can be reused",
+}
+
+func init() {
+	const text = "a Reset that rebuilds its receiver (a composite literal stored over *z, or field stores) takes no by-value state from the old receiver: every receiver field whose old value flows into a stored value is either a reusable resource (pointer, interface, slice, map - governed by R12.2) or constructor-only configuration (an unexported field that is only ever assigned from parameters of constructors and unexported helpers, such as the level); flags, counters, headers and identifiers of the previous stream must not survive, or the next stream differs from a fresh reader's/writer's."
+	extend("C12", Rule{ID: "R12.5", Configs: "all", Run: ruleCarry}, "(R12.5) "+text)
+	extend("C13", Rule{ID: "R13.5", Configs: "all", Run: ruleCarry}, "(R13.5) = R12.5 for the readers' Reset methods.")
+}
+
+func ruleCarry(p *Program, r *Report) {
+	id, wantParam := "R12.5", "io.Writer"
+	if r.Prop == "C13" {
+		id, wantParam = "R13.5", "io.Reader"
+	}
+	r.Expect(id, 3)
+	isRef := func(t types.Type) bool {
+		switch t.Underlying().(type) {
+		case *types.Pointer, *types.Interface, *types.Slice, *types.Map, *types.Chan, *types.Signature:
+			return true
+		}
+		return false
+	}
+	// all stores to field g of struct type T in T's package: (value, function)
+	type fstore struct {
+		val ssa.Value
+		fn  *ssa.Function
+	}
+	storesTo := func(T *types.Named, g string) []fstore {
+		var out []fstore
+		for _, fn := range p.Funcs() {
+			if fn.Pkg == nil || fn.Pkg.Pkg != T.Obj().Pkg() {
+				continue
+			}
+			for _, b := range fn.Blocks {
+				for _, in := range b.Instrs {
+					st, ok := in.(*ssa.Store)
+					if !ok {
+						continue
+					}
+					fa, ok := st.Addr.(*ssa.FieldAddr)
+					if !ok || derefNamed(fa.X.Type()) != T {
+						continue
+					}
+					if derefStruct(fa.X.Type()).Field(fa.Field).Name() == g {
+						out = append(out, fstore{st.Val, fn})
+					}
+				}
+			}
+		}
+		return out
+	}
+	isConfig := func(T *types.Named, g string) (bool, string) {
+		if ast.IsExported(g) {
+			return false, "an exported field, which callers assign between streams"
+		}
+		for _, s := range storesTo(T, g) {
+			v := stripConv(s.val)
+			if prm, ok := v.(*ssa.Parameter); ok {
+				h := prm.Parent()
+				if h.Signature.Recv() != nil && ast.IsExported(h.Name()) {
+					return false, "assigned from a parameter of the exported method " + h.Name()
+				}
+				continue
+			}
+			if _, sel, ok := fieldLoad(v); ok && sel == "."+g {
+				continue // a copy of the same field
+			}
+			return false, "assigned at " + p.Pos(s.val.Pos()) + " from something other than a constructor parameter"
+		}
+		return true, ""
+	}
+	n, carries := 0, 0
+	for _, T := range p.AllNamed() {
+		if _, isS := T.Underlying().(*types.Struct); !isS {
+			continue
+		}
+		fn := hasMethod(p, T, "Reset", func(*types.Signature) bool { return true })
+		if fn == nil || fn.Blocks == nil || !p.InRepo(fn) || len(fn.Params) < 2 {
+			continue
+		}
+		if typeString(fn.Params[1].Type()) != wantParam {
+			continue
+		}
+		n++
+		recv := fn.Params[0]
+		region := recvRegion(fn)
+		st := derefStruct(recv.Type())
+		fieldType := func(g string) types.Type {
+			for i := 0; i < st.NumFields(); i++ {
+				if st.Field(i).Name() == g {
+					return st.Field(i).Type()
+				}
+			}
+			return nil
+		}
+		// old receiver fields a value derives from
+		var derive func(v ssa.Value, bind map[*ssa.Parameter]ssa.Value, d int, out map[string]bool)
+		derive = func(v ssa.Value, bind map[*ssa.Parameter]ssa.Value, d int, out map[string]bool) {
+			if d > 12 || v == nil {
+				return
+			}
+			switch x := v.(type) {
+			case *ssa.UnOp:
+				if x.Op != token.MUL {
+					derive(x.X, bind, d+1, out)
+					return
+				}
+				root, sel := accessPath(x.X)
+				if boundTo(root, recv, bind) {
+					if sel == "" {
+						out["*"] = true
+					} else {
+						out[strings.SplitN(strings.TrimPrefix(sel, "."), ".", 2)[0]] = true
+					}
+					return
+				}
+				if al, ok := root.(*ssa.Alloc); ok && al.Referrers() != nil {
+					for _, u := range *al.Referrers() {
+						if s, ok := u.(*ssa.Store); ok && s.Addr == ssa.Value(al) {
+							derive(s.Val, bind, d+1, out)
+						}
+					}
+				}
+			case *ssa.BinOp:
+				derive(x.X, bind, d+1, out)
+				derive(x.Y, bind, d+1, out)
+			case *ssa.Convert:
+				derive(x.X, bind, d+1, out)
+			case *ssa.ChangeType:
+				derive(x.X, bind, d+1, out)
+			case *ssa.MakeInterface:
+				derive(x.X, bind, d+1, out)
+			case *ssa.Phi:
+				for _, e := range x.Edges {
+					derive(e, bind, d+1, out)
+				}
+				// the conditions deciding the phi: a value chosen by an old flag also depends on it
+				for _, pb := range x.Block().Preds {
+					if len(pb.Instrs) > 0 {
+						if iff, ok := pb.Instrs[len(pb.Instrs)-1].(*ssa.If); ok {
+							derive(iff.Cond, bind, d+1, out)
+						}
+					}
+				}
+			case *ssa.Field:
+				sub := map[string]bool{}
+				derive(x.X, bind, d+1, sub)
+				for k := range sub {
+					if k == "*" {
+						if sx, ok := x.X.Type().Underlying().(*types.Struct); ok {
+							k = sx.Field(x.Field).Name()
+						}
+					}
+					out[k] = true
+				}
+			case *ssa.Parameter:
+				if a, ok := bind[x]; ok {
+					derive(a, bind, d+1, out)
+				}
+			}
+		}
+		why := ""
+		examine := func(f string, val ssa.Value, bind map[*ssa.Parameter]ssa.Value, at ssa.Instruction) {
+			src := map[string]bool{}
+			derive(val, bind, 0, src)
+			var gs []string
+			for g := range src {
+				gs = append(gs, g)
+			}
+			sort.Strings(gs)
+			for _, g := range gs {
+				carries++
+				if g == "*" {
+					why = "the whole old receiver is stored back at " + p.InstrPos(at)
+					continue
+				}
+				ft := fieldType(g)
+				if ft == nil || isRef(ft) {
+					continue
+				}
+				if ok, _ := isConfig(derefNamed(recv.Type()), g); ok {
+					continue
+				}
+				if _, ok := carriedException[T.Obj().Pkg().Name()+"."+T.Obj().Name()+"."+g]; ok {
+					continue
+				}
+				_, reason := isConfig(derefNamed(recv.Type()), g)
+				why = "the value stored in ." + f + " at " + p.InstrPos(at) + " is taken from the old receiver's ." + g + " (" + reason + "): state of the previous stream survives Reset"
+			}
+		}
+		for _, rf := range region {
+			for _, b := range rf.fn.Blocks {
+				for _, in := range b.Instrs {
+					s, ok := in.(*ssa.Store)
+					if !ok {
+						continue
+					}
+					root, sel := accessPath(s.Addr)
+					if !boundTo(root, recv, rf.bind) {
+						continue
+					}
+					if sel != "" {
+						examine(strings.SplitN(strings.TrimPrefix(sel, "."), ".", 2)[0], s.Val, rf.bind, s)
+						continue
+					}
+					// *z = T{...}
+					ld, ok := s.Val.(*ssa.UnOp)
+					if !ok || ld.Op != token.MUL {
+						continue
+					}
+					al, ok := ld.X.(*ssa.Alloc)
+					if !ok || al.Referrers() == nil {
+						examine("*", s.Val, rf.bind, s)
+						continue
+					}
+					for _, u := range *al.Referrers() {
+						fa, ok := u.(*ssa.FieldAddr)
+						if !ok || fa.Referrers() == nil {
+							continue
+						}
+						for _, u2 := range *fa.Referrers() {
+							if s2, ok := u2.(*ssa.Store); ok && s2.Addr == ssa.Value(fa) {
+								examine(derefStruct(fa.X.Type()).Field(fa.Field).Name(), s2.Val, rf.bind, s2)
+							}
+						}
+					}
+				}
+			}
+		}
+		r.Check(why == "", id, shortFn(fn)+"|no by-value state carried", p.Pos(fn.Pos()), "Reset (with "+itoa(len(region)-1)+" helpers) stores nothing taken from by-value state of the old receiver", why)
+	}
+	if n == 0 {
+		r.Undecided(id, "Reset methods", "-", "the repository has Reset("+wantParam+") methods", "none found")
+	}
+	r.Note("%s: %d Reset methods, %d carried values examined", id, n, carries)
+}
+
+// recvRegion: fn and the same-package functions its receiver is (transitively) passed to, each with the binding of
+// its parameters to the values at the call site.
+type regFn struct {
+	fn   *ssa.Function
+	bind map[*ssa.Parameter]ssa.Value
+}
+
+func recvRegion(fn *ssa.Function) []regFn {
+	recv := fn.Params[0]
+	region := []regFn{{fn, map[*ssa.Parameter]ssa.Value{}}}
+	seen := map[*ssa.Function]bool{fn: true}
+	for i := 0; i < len(region) && i < 16; i++ {
+		for _, c := range allCalls(region[i].fn) {
+			h := c.Common().StaticCallee()
+			if h == nil || h.Blocks == nil || h.Pkg != fn.Pkg || seen[h] {
+				continue
+			}
+			passes := false
+			nb := map[*ssa.Parameter]ssa.Value{}
+			for k, v := range region[i].bind {
+				nb[k] = v
+			}
+			for ai, a := range c.Common().Args {
+				if ai < len(h.Params) {
+					nb[h.Params[ai]] = a
+					if boundTo(a, recv, region[i].bind) {
+						passes = true
+					}
+				}
+			}
+			if passes {
+				seen[h] = true
+				region = append(region, regFn{h, nb})
+			}
+		}
+	}
+	return region
+}
+
+func init() {
+	extend("C06", Rule{ID: "R06.7", Configs: "all", Run: ruleR06_7},
+		"(R06.7) gzip.Reader.Header is the header of the first member, as in compress/gzip: Read - with every same-package helper the receiver is passed to - contains no store into the receiver's Header; the headers of later members of a multistream file are parsed for their length and checksum and discarded.")
+}
+
+func ruleR06_7(p *Program, r *Report) {
+	r.Expect("R06.7", 1)
+	fn := p.Method(gzipRel, "Reader", "Read")
+	if fn == nil {
+		r.Undecided("R06.7", "gzip.Reader.Read", "-", "the gzip package has Reader.Read", "not found")
+		return
+	}
+	recv := fn.Params[0]
+	region := recvRegion(fn)
+	why := ""
+	calls := 0
+	for _, rf := range region {
+		for _, b := range rf.fn.Blocks {
+			for _, in := range b.Instrs {
+				if _, ok := in.(ssa.CallInstruction); ok {
+					calls++
+				}
+				s, ok := in.(*ssa.Store)
+				if !ok {
+					continue
+				}
+				root, sel := accessPath(s.Addr)
+				if boundTo(root, recv, rf.bind) && (sel == ".Header" || strings.HasPrefix(sel, ".Header.") || sel == "") {
+					why = "store into the receiver's Header at " + p.InstrPos(s) + " (in " + shortFn(rf.fn) + ") is part of Read: a later member's header replaces the first one"
+				}
+			}
+		}
+	}
+	r.Check(why == "", "R06.7", shortFn(fn)+"|Header of the first member kept", p.Pos(fn.Pos()), "Read and its "+itoa(len(region)-1)+" helpers on the receiver never assign Header", why)
+}
+
+// ---------- R18.16: the acceleration level selects implementations and nothing else ----------
+
+// archLevelReporters: functions that read cpu.ArchLevel without dispatching, confirmed by reading.
+var archLevelReporters = map[string]string{
+	"fastgo.Optimized": "exported report of whether acceleration is on; the value flows to the caller only",
+}
+
+func init() {
+	extend("C18", Rule{ID: "R18.16", Configs: "all", Run: ruleR18_16},
+		"(R18.16) the acceleration level selects implementations and nothing else: every function that reads cpu.ArchLevel is a dispatch site - it refers to at least one assembly routine (a function without a Go body) that it calls, installs in a function variable, or calls through such a variable - or the listed reporter; a table flag, a threshold or a Peek size chosen by the level makes results differ between machines.")
+}
+
+func ruleR18_16(p *Program, r *Report) {
+	r.Expect("R18.16", 1)
+	g := p.Global("internal/cpu", "ArchLevel")
+	if g == nil {
+		r.Undecided("R18.16", "cpu.ArchLevel", "-", "internal/cpu declares ArchLevel", "not found")
+		return
+	}
+	fns := append([]*ssa.Function{}, p.Funcs()...)
+	seen := map[*ssa.Function]bool{}
+	for _, f := range fns {
+		seen[f] = true
+	}
+	for _, sp := range p.SSA {
+		for _, m := range sp.Members {
+			if f, ok := m.(*ssa.Function); ok && !seen[f] && f.Blocks != nil {
+				seen[f] = true
+				fns = append(fns, f)
+			}
+		}
+	}
+	isAsm := func(v ssa.Value) (string, bool) {
+		h, ok := v.(*ssa.Function)
+		if ok && h.Blocks == nil && h.Pkg != nil && strings.HasPrefix(h.Pkg.Pkg.Path(), modPath) {
+			return h.Name(), true
+		}
+		return "", false
+	}
+	// function variables in which an assembly routine is installed somewhere
+	asmVars := map[*ssa.Global]string{}
+	for _, f := range fns {
+		for _, b := range f.Blocks {
+			for _, in := range b.Instrs {
+				if st, ok := in.(*ssa.Store); ok {
+					if gv, ok := st.Addr.(*ssa.Global); ok {
+						if nm, ok := isAsm(st.Val); ok {
+							asmVars[gv] = nm
+						}
+					}
+				}
+			}
+		}
+	}
+	n := 0
+	for _, fn := range fns {
+		if !p.InRepo(fn) || fn.Pkg == g.Pkg {
+			continue
+		}
+		reads := false
+		var at ssa.Instruction
+		asm := ""
+		var visit func(f *ssa.Function)
+		visit = func(f *ssa.Function) {
+			for _, b := range f.Blocks {
+				for _, in := range b.Instrs {
+					if u, ok := in.(*ssa.UnOp); ok && u.Op == token.MUL && u.X == ssa.Value(g) {
+						reads = true
+						if at == nil {
+							at = in
+						}
+					}
+					for _, op := range in.Operands(nil) {
+						if op == nil || *op == nil {
+							continue
+						}
+						if nm, ok := isAsm(*op); ok {
+							asm = nm
+						}
+						if gv, ok := (*op).(*ssa.Global); ok {
+							if nm, ok := asmVars[gv]; ok {
+								asm = nm + " (through the function variable " + gv.Name() + ")"
+							}
+						}
+					}
+				}
+			}
+			for _, an := range f.AnonFuncs {
+				visit(an)
+			}
+		}
+		visit(fn)
+		if !reads {
+			continue
+		}
+		n++
+		name := fn.Pkg.Pkg.Name() + "." + fn.Name()
+		key := shortFn(fn) + "|reads the acceleration level"
+		if why, ok := archLevelReporters[name]; ok {
+			r.OK("R18.16", key, p.InstrPos(at), "listed reporter: "+why)
+			continue
+		}
+		why := ""
+		if asm == "" {
+			why = "reads cpu.ArchLevel but refers to no assembly routine: something other than the choice of implementation depends on the acceleration level"
+		}
+		r.Check(why == "", "R18.16", key, p.InstrPos(at), "a dispatch site: the function refers to the assembly routine "+asm, why)
+	}
+	if n == 0 {
+		r.Undecided("R18.16", "readers", "-", "some function reads cpu.ArchLevel", "none found")
 	}
 }
